@@ -54,8 +54,9 @@ fn c_idea_add() {
     assert!(c.add(a, c.add_inv(a)) == 0);
 }
 
-// mul_inv on all 2^16 inputs, executed concretely (16 chunks of 4096): equals the Fermat inverse of the
-// reference, is a two-sided inverse for mul (real and reference), returns without overflow.
+// mul_inv on all 2^16 inputs, executed concretely (16 chunks of 4096; CBMC's symbolic execution needs ~0.15 s
+// per input, hence the thorough tier): equals the Fermat inverse of the reference, is an inverse for the real
+// mul (two-sided by l_idea_mul_unit: mul commutes), returns without overflow or division by zero.
 macro_rules! mul_inv_chunk {
     ($name:ident, $c:expr) => {
         #[kani::proof]
@@ -66,71 +67,103 @@ macro_rules! mul_inv_chunk {
             while a < ($c + 1) * 4096 {
                 let i = c.mul_inv(a as u16);
                 assert!(i == bcref::idea::mul_inv(a as u16));
-                assert!(c.mul(a as u16, i) == 1 && c.mul(i, a as u16) == 1);
-                assert!(bcref::idea::mul(a as u16, i) == 1);
+                assert!(c.mul(a as u16, i) == 1);
                 a += 1;
             }
         }
     };
 }
-// @ob name=x_idea_mul_inv_c00 props=C09,C01,C20 kind=exhaustive fn=idea::Idea::mul_inv timeout=600 note="inputs 0x0000..0x0fff"
+// @ob name=x_idea_mul_inv_c00 props=C09,C01,C20 kind=exhaustive tier=thorough fn=idea::Idea::mul_inv timeout=2400 note="inputs 0x0000..=0x0fff"
 mul_inv_chunk!(x_idea_mul_inv_c00, 0);
-// @ob name=x_idea_mul_inv_c01 props=C09,C01,C20 kind=exhaustive fn=idea::Idea::mul_inv timeout=600 note="inputs 0x1000..0x1fff"
+// @ob name=x_idea_mul_inv_c01 props=C09,C01,C20 kind=exhaustive tier=thorough fn=idea::Idea::mul_inv timeout=2400 note="inputs 0x1000..=0x1fff"
 mul_inv_chunk!(x_idea_mul_inv_c01, 1);
-// @ob name=x_idea_mul_inv_c02 props=C09,C01,C20 kind=exhaustive fn=idea::Idea::mul_inv timeout=600
+// @ob name=x_idea_mul_inv_c02 props=C09,C01,C20 kind=exhaustive tier=thorough fn=idea::Idea::mul_inv timeout=2400 note="inputs 0x2000..=0x2fff"
 mul_inv_chunk!(x_idea_mul_inv_c02, 2);
-// @ob name=x_idea_mul_inv_c03 props=C09,C01,C20 kind=exhaustive fn=idea::Idea::mul_inv timeout=600
+// @ob name=x_idea_mul_inv_c03 props=C09,C01,C20 kind=exhaustive tier=thorough fn=idea::Idea::mul_inv timeout=2400 note="inputs 0x3000..=0x3fff"
 mul_inv_chunk!(x_idea_mul_inv_c03, 3);
-// @ob name=x_idea_mul_inv_c04 props=C09,C01,C20 kind=exhaustive fn=idea::Idea::mul_inv timeout=600
+// @ob name=x_idea_mul_inv_c04 props=C09,C01,C20 kind=exhaustive tier=thorough fn=idea::Idea::mul_inv timeout=2400 note="inputs 0x4000..=0x4fff"
 mul_inv_chunk!(x_idea_mul_inv_c04, 4);
-// @ob name=x_idea_mul_inv_c05 props=C09,C01,C20 kind=exhaustive fn=idea::Idea::mul_inv timeout=600
+// @ob name=x_idea_mul_inv_c05 props=C09,C01,C20 kind=exhaustive tier=thorough fn=idea::Idea::mul_inv timeout=2400 note="inputs 0x5000..=0x5fff"
 mul_inv_chunk!(x_idea_mul_inv_c05, 5);
-// @ob name=x_idea_mul_inv_c06 props=C09,C01,C20 kind=exhaustive fn=idea::Idea::mul_inv timeout=600
+// @ob name=x_idea_mul_inv_c06 props=C09,C01,C20 kind=exhaustive tier=thorough fn=idea::Idea::mul_inv timeout=2400 note="inputs 0x6000..=0x6fff"
 mul_inv_chunk!(x_idea_mul_inv_c06, 6);
-// @ob name=x_idea_mul_inv_c07 props=C09,C01,C20 kind=exhaustive fn=idea::Idea::mul_inv timeout=600
+// @ob name=x_idea_mul_inv_c07 props=C09,C01,C20 kind=exhaustive tier=thorough fn=idea::Idea::mul_inv timeout=2400 note="inputs 0x7000..=0x7fff"
 mul_inv_chunk!(x_idea_mul_inv_c07, 7);
-// @ob name=x_idea_mul_inv_c08 props=C09,C01,C20 kind=exhaustive fn=idea::Idea::mul_inv timeout=600
+// @ob name=x_idea_mul_inv_c08 props=C09,C01,C20 kind=exhaustive tier=thorough fn=idea::Idea::mul_inv timeout=2400 note="inputs 0x8000..=0x8fff"
 mul_inv_chunk!(x_idea_mul_inv_c08, 8);
-// @ob name=x_idea_mul_inv_c09 props=C09,C01,C20 kind=exhaustive fn=idea::Idea::mul_inv timeout=600
+// @ob name=x_idea_mul_inv_c09 props=C09,C01,C20 kind=exhaustive tier=thorough fn=idea::Idea::mul_inv timeout=2400 note="inputs 0x9000..=0x9fff"
 mul_inv_chunk!(x_idea_mul_inv_c09, 9);
-// @ob name=x_idea_mul_inv_c10 props=C09,C01,C20 kind=exhaustive fn=idea::Idea::mul_inv timeout=600
+// @ob name=x_idea_mul_inv_c10 props=C09,C01,C20 kind=exhaustive tier=thorough fn=idea::Idea::mul_inv timeout=2400 note="inputs 0xa000..=0xafff"
 mul_inv_chunk!(x_idea_mul_inv_c10, 10);
-// @ob name=x_idea_mul_inv_c11 props=C09,C01,C20 kind=exhaustive fn=idea::Idea::mul_inv timeout=600
+// @ob name=x_idea_mul_inv_c11 props=C09,C01,C20 kind=exhaustive tier=thorough fn=idea::Idea::mul_inv timeout=2400 note="inputs 0xb000..=0xbfff"
 mul_inv_chunk!(x_idea_mul_inv_c11, 11);
-// @ob name=x_idea_mul_inv_c12 props=C09,C01,C20 kind=exhaustive fn=idea::Idea::mul_inv timeout=600
+// @ob name=x_idea_mul_inv_c12 props=C09,C01,C20 kind=exhaustive tier=thorough fn=idea::Idea::mul_inv timeout=2400 note="inputs 0xc000..=0xcfff"
 mul_inv_chunk!(x_idea_mul_inv_c12, 12);
-// @ob name=x_idea_mul_inv_c13 props=C09,C01,C20 kind=exhaustive fn=idea::Idea::mul_inv timeout=600
+// @ob name=x_idea_mul_inv_c13 props=C09,C01,C20 kind=exhaustive tier=thorough fn=idea::Idea::mul_inv timeout=2400 note="inputs 0xd000..=0xdfff"
 mul_inv_chunk!(x_idea_mul_inv_c13, 13);
-// @ob name=x_idea_mul_inv_c14 props=C09,C01,C20 kind=exhaustive fn=idea::Idea::mul_inv timeout=600
+// @ob name=x_idea_mul_inv_c14 props=C09,C01,C20 kind=exhaustive tier=thorough fn=idea::Idea::mul_inv timeout=2400 note="inputs 0xe000..=0xefff"
 mul_inv_chunk!(x_idea_mul_inv_c14, 14);
-// @ob name=x_idea_mul_inv_c15 props=C09,C01,C20 kind=exhaustive fn=idea::Idea::mul_inv timeout=600 note="inputs 0xf000..0xffff"
+// @ob name=x_idea_mul_inv_c15 props=C09,C01,C20 kind=exhaustive tier=thorough fn=idea::Idea::mul_inv timeout=2400 note="inputs 0xf000..=0xffff"
 mul_inv_chunk!(x_idea_mul_inv_c15, 15);
+
+// quick-tier stand-in for the sixteen chunks: the 384 inputs around the corners of the domain
+// @ob name=x_idea_mul_inv_sample props=C09,C01,C20 kind=bounded bound="inputs 0x0000..=0x007f, 0x7fc0..=0x803f, 0xff80..=0xffff (the complete domain is covered by x_idea_mul_inv_c00..c15 in the thorough tier)" fn=idea::Idea::mul_inv timeout=600
+#[kani::proof]
+#[kani::unwind(130)]
+fn x_idea_mul_inv_sample() {
+    let c = Idea { enc_keys: [0; 52], dec_keys: [0; 52] };
+    let starts: [u32; 3] = [0x0000, 0x7fc0, 0xff80];
+    let mut s = 0;
+    while s < 3 {
+        let mut a = starts[s];
+        while a < starts[s] + 128 {
+            let i = c.mul_inv(a as u16);
+            assert!(i == bcref::idea::mul_inv(a as u16));
+            assert!(c.mul(a as u16, i) == 1);
+            a += 1;
+        }
+        s += 1;
+    }
+}
 
 // ---------------------------------------------------------------- uninterpreted stand-ins
 /// `inv`: uninterpreted function u16 -> u16 standing for BOTH Idea::mul_inv and bcref::idea::mul_inv
 /// (licensed by x_idea_mul_inv_c00..c15: they are the same function).
 /// `mul`: uninterpreted function (u16, u16) -> u16 standing for BOTH Idea::mul and bcref::idea::mul
 /// (licensed by c_idea_mul).  `gmul`: the same with the group axiom  mul(mul(x, k), k') == x  whenever
-/// k' = inv(k) or k = inv(k')  (licensed by c_idea_mul, x_idea_mul_inv_*, and associativity/commutativity of
-/// multiplication modulo the prime 65537, see l_idea_mul_assoc).
+/// k' = inv(k) or k = inv(k')  (licensed by c_idea_mul, l_idea_mul_unit, x_idea_mul_inv_*, and associativity of
+/// multiplication modulo the prime 65537, l_idea_mul_assoc).
+///
+/// The consistency tables are organised in slots by the (concrete) call number: call c only looks at earlier calls
+/// in its own slot.  An uninterpreted function that is consulted for FEWER equalities than hold is still a sound
+/// abstraction (more behaviours, never fewer); the slot map only has to be good enough for the proof to go
+/// through.  MODE 0: slot = c mod 34 / c mod 18 (real run and reference run make the same calls in the same order).
+/// MODE 1 (round trip): the second `crypt` run's call 4r+q is paired with the first run's call that it undoes:
+/// the key-mixing multiplications (q < 2) of round r with those of round 8 - r, the MA multiplications (q >= 2)
+/// with those of round 7 - r.
 pub mod ufi {
     use super::Idea;
-    pub const MAXI: usize = 40;
-    pub static mut IA: [u16; MAXI] = [0; MAXI];
-    pub static mut IR: [u16; MAXI] = [0; MAXI];
-    pub static mut IN: usize = 0;
+    pub static mut MODE: usize = 0;
+    pub const ISLOTS: usize = 18;
+    pub const IPER: usize = 4;
+    pub static mut IA: [[u16; IPER]; ISLOTS] = [[0; IPER]; ISLOTS];
+    pub static mut IR: [[u16; IPER]; ISLOTS] = [[0; IPER]; ISLOTS];
+    pub static mut ICNT: [usize; ISLOTS] = [0; ISLOTS];
+    pub static mut ICALLS: usize = 0;
     #[allow(static_mut_refs)]
     pub fn inv(a: u16) -> u16 {
         unsafe {
+            let s = ICALLS % ISLOTS;
+            ICALLS += 1;
             let mut r: u16 = kani::any();
             let mut found = false;
             let mut i = 0;
-            while i < IN {
-                if !found && IA[i] == a { r = IR[i]; found = true; }
+            while i < ICNT[s] {
+                if !found && IA[s][i] == a { r = IR[s][i]; found = true; }
                 i += 1;
             }
-            assert!(IN < MAXI);
-            IA[IN] = a; IR[IN] = r; IN += 1;
+            assert!(ICNT[s] < IPER);
+            IA[s][ICNT[s]] = a; IR[s][ICNT[s]] = r; ICNT[s] += 1;
             r
         }
     }
@@ -140,40 +173,60 @@ pub mod ufi {
     pub fn related(k: u16, k2: u16) -> bool {
         unsafe {
             let mut rel = false;
-            let mut i = 0;
-            while i < IN {
-                rel |= (IA[i] == k && IR[i] == k2) || (IA[i] == k2 && IR[i] == k);
-                i += 1;
+            let mut s = 0;
+            while s < ISLOTS {
+                let mut i = 0;
+                while i < ICNT[s] {
+                    rel |= (IA[s][i] == k && IR[s][i] == k2) || (IA[s][i] == k2 && IR[s][i] == k);
+                    i += 1;
+                }
+                s += 1;
             }
             rel
         }
     }
 
-    pub const MAXM: usize = 72;
-    pub static mut MA: [u16; MAXM] = [0; MAXM];
-    pub static mut MB: [u16; MAXM] = [0; MAXM];
-    pub static mut MR: [u16; MAXM] = [0; MAXM];
-    pub static mut MN: usize = 0;
+    pub const MSLOTS: usize = 34;
+    pub const MPER: usize = 4;
+    pub static mut MA: [[u16; MPER]; MSLOTS] = [[0; MPER]; MSLOTS];
+    pub static mut MB: [[u16; MPER]; MSLOTS] = [[0; MPER]; MSLOTS];
+    pub static mut MR: [[u16; MPER]; MSLOTS] = [[0; MPER]; MSLOTS];
+    pub static mut MCNT: [usize; MSLOTS] = [0; MSLOTS];
+    pub static mut MCALLS: usize = 0;
+    #[allow(static_mut_refs)]
+    fn slot_of(c: usize) -> usize {
+        unsafe {
+            if MODE == 0 || c < MSLOTS {
+                c % MSLOTS
+            } else {
+                let c2 = (c - MSLOTS) % MSLOTS;
+                let (r, q) = (c2 / 4, c2 % 4);
+                if q < 2 { 4 * (8 - r) + q } else { 4 * (7 - r) + q }
+            }
+        }
+    }
     #[allow(static_mut_refs)]
     fn mul_impl(a: u16, b: u16, group: bool) -> u16 {
         unsafe {
+            let s = slot_of(MCALLS);
+            MCALLS += 1;
             let mut r: u16 = kani::any();
             let mut found = false;
             let mut i = 0;
-            while i < MN {
-                if !found && MA[i] == a && MB[i] == b { r = MR[i]; found = true; }
+            while i < MCNT[s] {
+                if !found && MA[s][i] == a && MB[s][i] == b { r = MR[s][i]; found = true; }
                 i += 1;
             }
             if group {
                 // a = mul(x0, k0) recorded, and b is the inverse of k0: the result is x0
                 let mut i = 0;
-                while i < MN {
-                    if !found && MR[i] == a && related(MB[i], b) { r = MA[i]; found = true; }
+                while i < MCNT[s] {
+                    if !found && MR[s][i] == a && related(MB[s][i], b) { r = MA[s][i]; found = true; }
                     i += 1;
                 }
             }
-            assert!(MN < MAXM);
-            MA[MN] = a; MB[MN] = b; MR[MN] = r; MN += 1;
+            assert!(MCNT[s] < MPER);
+            MA[s][MCNT[s]] = a; MB[s][MCNT[s]] = b; MR[s][MCNT[s]] = r; MCNT[s] += 1;
             r
         }
     }
@@ -241,7 +294,7 @@ pub fn spec_crypt(_c: &Idea, mut block: InOut<'_, '_, Block<Idea>>, sub_keys: &[
 #[kani::proof]
 #[kani::stub(Idea::mul, ufi::real_mul)]
 #[kani::stub(bcref::idea::mul, ufi::mul)]
-#[kani::unwind(73)]
+#[kani::unwind(53)]
 fn c_idea_crypt() {
     let c = any_idea();
     let sk: [u16; 52] = kani::any();
@@ -257,7 +310,7 @@ fn c_idea_crypt() {
 #[kani::proof]
 #[kani::stub(Idea::crypt, spec_crypt)]
 #[kani::stub(bcref::idea::mul, ufi::mul)]
-#[kani::unwind(73)]
+#[kani::unwind(53)]
 fn c_idea_block_fns() {
     let c = any_idea();
     let b: [u8; 8] = kani::any();
@@ -277,7 +330,7 @@ fn c_idea_block_fns() {
 #[kani::stub(Idea::mul_inv, ufi::real_inv)]
 #[kani::stub(bcref::idea::mul_inv, ufi::inv)]
 #[kani::stub(bcref::idea::mul, ufi::mul)]
-#[kani::unwind(73)]
+#[kani::unwind(53)]
 fn c_idea_bytes_api() {
     let k: [u8; 16] = kani::any();
     let b: [u8; 8] = kani::any();
@@ -318,8 +371,9 @@ fn l_idea_mul_assoc() {
 #[kani::proof]
 #[kani::stub(Idea::mul, ufi::real_gmul)]
 #[kani::stub(Idea::mul_inv, ufi::real_inv)]
-#[kani::unwind(73)]
+#[kani::unwind(53)]
 fn l_idea_roundtrip_ed() {
+    unsafe { ufi::MODE = 1; }
     let mut c = Idea { enc_keys: kani::any(), dec_keys: [0; 52] };
     c.invert_sub_keys();
     let b: [u8; 8] = kani::any();
@@ -333,8 +387,9 @@ fn l_idea_roundtrip_ed() {
 #[kani::proof]
 #[kani::stub(Idea::mul, ufi::real_gmul)]
 #[kani::stub(Idea::mul_inv, ufi::real_inv)]
-#[kani::unwind(73)]
+#[kani::unwind(53)]
 fn l_idea_roundtrip_de() {
+    unsafe { ufi::MODE = 1; }
     let mut c = Idea { enc_keys: kani::any(), dec_keys: [0; 52] };
     c.invert_sub_keys();
     let b: [u8; 8] = kani::any();
@@ -396,34 +451,3 @@ multi_block!(#[kani::stub(Idea::crypt, uf_crypt)] #[kani::unwind(53)]
 multi_block!(#[kani::stub(Idea::crypt, uf_crypt)] #[kani::unwind(53)]
     m_idea_dec_blocks_3, 3, any_idea(), snap, eqsnap, BlockCipherDecrypt, decrypt_block, decrypt_blocks, decrypt_blocks_b2b);
 
-// TEMP-EXPERIMENT-BEGIN
-#[kani::proof]
-#[kani::unwind(14)]
-fn t_exp_d() {
-    let c = Idea { enc_keys: [0; 52], dec_keys: [0; 52] };
-    let t: u16 = kani::any();
-    kani::assume(t < 4096);
-    let a = 0x7000 + t;
-    let i = c.mul_inv(a);
-    assert!(c.mul(a, i) == 1);
-    assert!(bcref::idea::mul(a, i) == 1);
-}
-#[kani::proof]
-#[kani::unwind(17)]
-fn t_exp_e() {
-    let c = Idea { enc_keys: [0; 52], dec_keys: [0; 52] };
-    let t: u16 = kani::any();
-    kani::assume(t < 4096);
-    let a = 0x7000 + t;
-    let i = c.mul_inv(a);
-    assert!(i == bcref::idea::mul_inv(a));
-}
-#[kani::proof]
-#[kani::unwind(14)]
-fn t_exp_f() {
-    let c = Idea { enc_keys: [0; 52], dec_keys: [0; 52] };
-    let a: u16 = kani::any();
-    let i = c.mul_inv(a);
-    assert!(c.mul(a, i) == 1);
-}
-// TEMP-EXPERIMENT-END
